@@ -230,7 +230,7 @@ def run_e2e(ctx):
     boundary = ["k" * 1024, "k" * 1025, "\u00e9" * 512, "\u00e9" * 513, "\u4e2d" * 341 + "a", "\u4e2d" * 342, "\U0001F600" * 256, "\U0001F600" * 256 + "x"]
     # keys whose first segment is the bucket's own name (and look-alikes): the same key in both styles
     own = ["{bk}/2024/a.jpg", "{bk}/", "{bk}", "{bk}//x", "{bk}/{bk}/y", "/{bk}/z", "{bk}2/y", "{bk}%2Fq"]
-    fixed = [(k_, st) for k_ in boundary + own for st in ("path", "vh")]
+    fixed = [(k_, st) for k_ in [x for k0 in boundary for x in (k0, k0)] + own for st in ("path", "vh")]
     for it in range((60 if ctx.quick else 800) + len(fixed)):
         bk = rng.choice(["my-bucket", "a.b.c", "abc", "bucket-1"])
         key = gen_key(rng)
@@ -238,6 +238,8 @@ def run_e2e(ctx):
         style = rng.choice(["path", "vh", "ip"])
         if it < len(fixed):
             key, style = fixed[it]
+            if (it // 2) % 2 == 1:
+                bk = "b" * 62 + "x"          # the longest bucket name there is: both limits at once
             key = key.replace("{bk}", bk)
             cfg = cfgs[1 + it % 2] if style == "vh" else cfg
         if style == "vh" and cfg is None:
